@@ -45,6 +45,7 @@ type Opts struct {
 	FloatNormal bool
 	ConcFloats  bool // doubles from the concrete boundary set concFloats (keys become concrete)
 	OneFloat    bool // with ConcFloats: only the value 0
+	TwoFloats   bool // with ConcFloats: only the values 0 and 2.5
 	// ElemConc: doubles INSIDE containers come from the concrete set. A container key embeds the element
 	// encodings as an escaped string, so every symbolic byte of an embedded double forks three ways
 	// (0x00 / 0xff / other) in orderedcode.appendString: 3^9 paths per symbolic double element.
@@ -109,6 +110,9 @@ func Value(name string, o Opts) interface{} {
 		if o.ConcFloats {
 			if o.OneFloat {
 				return float64(0)
+			}
+			if o.TwoFloats {
+				return []float64{0, 2.5}[nd.Choice(name+".cf", 2)]
 			}
 			return concFloats[nd.Choice(name+".cf", len(concFloats))]
 		}
